@@ -383,10 +383,29 @@ def empty_sequence_rule(ctx, repo):
                "is stored by h5py as an empty float64 array, and reloads as an array instead of the empty list that was saved", disc="sequence")
 
 
+def default_path_rule(ctx, repo):
+    """C13.history (default-path clause): for every history class the writer and the reader it resolves to by MRO use the same default group
+    name, so `h.save(f); type(h).load(f)` finds what was written."""
+    n = 0
+    for c in repo.modules["aspire.history"].classes.values():
+        sv, ld = c.resolve("save"), c.resolve("load")
+        if sv is None or ld is None:
+            continue
+        ds, dl = sv.param_defaults().get("path"), ld.param_defaults().get("path")
+        vs = ds.value if isinstance(ds, ast.Constant) else None
+        vl = dl.value if isinstance(dl, ast.Constant) else None
+        n += 1
+        ctx.decide(vs is not None and vs == vl, "C13.history", c.ident, loc_of(sv), f"{c.name}: save and load default to the same group ({vs!r})",
+                   f"{c.name}.save writes to the default group {vs!r} ({sv.ident}) but {c.name}.load reads the default group {vl!r} ({ld.ident}): the default round trip "
+                   "h.save(f); type(h).load(f) raises KeyError / loads another object's record", disc="default-path")
+    ctx.floor("history classes with a save/load pair", n, 3)
+
+
 def run(ctx):
     repo = ctx.repo
     um = repo.module(U)
     dataset_options_rule(ctx, repo)
+    default_path_rule(ctx, repo)
     empty_sequence_rule(ctx, repo)
     # ---- what a file holds under /aspire_config is one configuration: the writer removes the group before it writes (the layout is flattened,
     #      so replacing key by key keeps every key only the older configuration had, and the reader rebuilds from the union)
